@@ -38,6 +38,13 @@ class AstToSqlAlchemyCoreVisitor(common._CommonVisitors, visitor.NodeVisitor):
         left = self.visit(node.left)
         right = self.visit(node.right)
         op = self.visit(node.comparator)
+
+        # 'null eq x' means the same as 'x eq null', SQLAlchemy only renders
+        # 'IS [NOT] NULL' if NULL is on the right-hand side:
+        if isinstance(node.left, ast.Null) and isinstance(
+            node.comparator, (ast.Eq, ast.NotEq)
+        ):
+            left, right = right, left
         return op(left, right)
 
     def visit_CollectionLambda(self, node: ast.CollectionLambda) -> ClauseElement:
